@@ -122,7 +122,14 @@ def canon_path(p, opfns):
     # conditions
     variants = [[]]
     for subj, rel in p["conds"]:
-        if subj.endswith(".Bool.0") and rel in ("val 0", "val not:0"):
+        mb = _re.fullmatch(r"Eq\((True|False), (.*\.Bool\.0)\)|Eq\((.*\.Bool\.0), (True|False)\)", subj)
+        if mb and rel in ("val 0", "val not:0"):
+            # `b == CONST` as a condition is a condition on b itself
+            const = (mb.group(1) or mb.group(4)) == "True"
+            b_ = mb.group(2) or mb.group(3)
+            holds = rel == "val not:0"
+            c = [(b_, "true" if (const == holds) else "false")]
+        elif subj.endswith(".Bool.0") and rel in ("val 0", "val not:0"):
             c = [(subj, "false" if rel == "val 0" else "true")]
         elif subj.startswith("Value::eq(") and subj.endswith(", None)") and rel in ("val 0", "val not:0"):
             a = subj[len("Value::eq("):-len(", None)")]
@@ -144,7 +151,17 @@ def canon_path(p, opfns):
                     out.append((frozenset(rest + [(a, "is " + t)]), tuple(events), ret))
         else:
             out.append((frozenset(rest), tuple(events), ret))
-    return out
+    # a boolean whose payload the path has decided, returned as it is, is that constant
+    fixed = []
+    for conds_, events_, ret_ in out:
+        m_ = _re.fullmatch(r"Ok\((ev\(.*\)\.Ok\.0)\)", ret_)
+        if m_:
+            d_ = dict(conds_)
+            pay = d_.get(m_.group(1) + ".Bool.0")
+            if pay in ("true", "false") and d_.get(m_.group(1)) == "is Bool":
+                ret_ = "Ok(Bool(%s))" % ("True" if pay == "true" else "False")
+        fixed.append((conds_, events_, ret_))
+    return fixed
 
 
 PURE = ("Value::eq", "Value::from", "Value::clone", "bool::try_from", "Value::try_into", "String::clone", "Vec::new", "BTreeMap::new",
